@@ -150,8 +150,9 @@ class PythonConstructRenderer:
 
         if description:
             # Sanitize description for use within a triple-double-quoted string for the actual docstring
-            safe_desc_content = description.replace("\\", "\\\\")  # Escape backslashes first
-            safe_desc_content = safe_desc_content.replace('"""', '\\"\\"\\"')  # Escape triple-double-quotes
+            safe_desc_content = description.replace("\0", " ").replace("\\", "\\\\")  # Escape backslashes first
+            # Escape every double quote: the text is directly followed by the closing triple quotes
+            safe_desc_content = safe_desc_content.replace('"', '\\"')
             writer.write_line(f'"""Alias for {safe_desc_content}"""')  # Actual generated docstring uses """
         return writer.get_code()
 
